@@ -45,7 +45,13 @@ RULE = (
     "sequence + row multiset, tie order is not demanded). roundtrip cases: Table.write -> load_table for tsv, csv, "
     "sep ; | space, .gz, compress=True, json, json.gz, pickle, plus to_csv / to_tsv strings parsed with the csv "
     "module: header equal, cell text equal (None -> '' in delimited files, floats by repr), int/float columns numeric "
-    "on reload. Not generated: carriage returns (Python 3.12's csv.writer does not quote them with "
+    "on reload; also .csv/.tsv(.gz) names with an explicit separator that is not the suffix default, given to "
+    "write(sep=) and load_table(sep= / delimiter=). live cases: ONE table object is mutated between observations "
+    "(index_name set to a later column / cleared after construction, title, legend, format_column, format, column "
+    "added / deleted / replaced through table.columns) and after the construction and after every step every read "
+    "path (header, shape, columns, columns.to_dict, array, columns.array, to_list, to_dict, row iteration, "
+    "to_rich_dict, single cells, column slicing, to_csv, write + csv-module parse + load_table in a rotating format) "
+    "is compared with a header-order + rows model; the first diverging path is the witness. Not generated: carriage returns (Python 3.12's csv.writer does not quote them with "
     "lineterminator='\\n'), non-ASCII text in files (the reader guesses the encoding), sorting of zero-row tables, "
     "column names that collide after prefixing. Non-trivial = >=2 rows and (duplicate key values or a hostile cell); "
     "distinct = (operation, variant, key-column types, has-duplicates, hostile classes / format)."
